@@ -14,6 +14,7 @@ mod pgen;
 mod c15;
 mod c02;
 mod c14;
+mod c12;
 
 use std::path::PathBuf;
 
@@ -76,6 +77,7 @@ fn main() {
         "c15" => c15::run(&args),
         "c02" => c02::run(&args),
         "c14" => c14::run(&args),
+        "c12" => c12::run(&args),
         "c06" => c06::run(&args),
         "c16" => c16::run(&args),
         "c10" => c10::run(&args),
